@@ -88,6 +88,23 @@ PROPS["C11"] = {
     "assumptions": ["'nothing locked or open after a failed Open', 'never hangs' and the allocation bound of the Go code are observed (watchdog, runtime.MemStats), not proved; the model proves termination (fuel bound) and allocation bounds of its own explicit accounting"],
     "rule": "corrupt: valid tails and sealed files damaged by bit flips, 8-byte splices, truncation at any offset, length-field edits (0xffffffff, MaxEntrySize+1, small), zero runs, frame-type bytes; then recovery or sealed open, reads, dump - outcome kind and recovered entries compared with the model, watchdog + allocation measurement; openfail: 7 kinds of damage to real directories (missing / short / zeroed / bad-magic / swapped-header sealed segment, garbage metadata record, foreign codec), Open must fail, a second Open in the same process must not block and, damage undone, must present the original log; codec: malformed encodings (7 mutation kinds) must yield errors, never panics",
 }
+
+VFY_TRUSTED = [GO, "github.com/segmentio/fasthash/fnv1a -- modelled (Base/Fnv.v) and differentially tested: every sum in every report is an observable of the vfy stream",
+               "raft.InmemStore / the WAL under a contract guard (harness guardStore: contiguous appends, prefix/suffix deletes = the C05 spec the model uses); at-rest corruption and StoreLogs faults are injected by that wrapper"]
+VFY_ASSUME = ["the model is sequential: StoreLogs and DeleteRange of one LogStore are atomic with respect to each other; the one interleaving raft really produces (compaction = head truncation from the snapshot goroutine during StoreLogs) leaves the verifier state untouched since 8c5a9f9 and is exercised on the implementation by the #race case of the vfy stream on every run",
+              "indexes are non-zero and below 2^64-1 (no uint64 wrap in idx+1 / max+1)",
+              "the verifier reads a range atomically with respect to writers (property quantifier: ranges not modified while their verification runs); the store contents at that moment are an arbitrary parameter sv of the theorems",
+              "the bootstrap exception (index 1 + LogConfiguration hashes to 0) is the explicit hypothesis no_bootstrap of the C17 range theorems"]
+VFY_RULE = ("seeded generator of multi-node histories: clusters of 2-3 nodes (leader appends, checkpoints, replication with random batch splits, "
+            "leadership changes with tail truncation of conflicting suffixes, follower restarts, head truncations, in-flight and at-rest single-field mutations, "
+            "blocked ReportFn, injected store failures), per-position mutation sweeps (13 mutation kinds x in flight / at rest on follower / at rest on leader / swapped entries), "
+            "invalid-operation soups (gaps, middle deletes, foreign Extensions, failing checkpoint fn) and drop scenarios; 1 line in 12 (quick) / 4 (thorough) runs over the real WAL; "
+            "distinct = distinct input lines")
+for _pid in ("C16", "C17", "C18"):
+    PROPS[_pid] = {
+        "streams": [S("vfy", 1500, 20000, vm=(40, 300), vm_maxlen=2500)],
+        "trusted": VFY_TRUSTED, "assumptions": VFY_ASSUME, "rule": VFY_RULE,
+    }
 for _p in ("C02", "C03", "C04", "C13"):
     PROPS[_p] = dict(PROPS["C01"])
 PROPS["C02"]["streams"] = [S("crash", 250, 6000, vm=(10, 100), vm_maxlen=8000), S("segcrash", 300, 8000, vm=(6, 60), vm_maxlen=6000)]
